@@ -190,6 +190,25 @@ def _drop_flushes(fx, ty):
     return False
 
 
+def _wraps_flush(fx, call):
+    """a local method whose whole body hands back `Write::flush(self)` (a named wrapper around flush)"""
+    cal = call.get("callee") or {}
+    did = cal.get("inst_did") if cal.get("inst_local") else (cal.get("did") if cal.get("local") else None)
+    b = fx.hir_by_did.get(did) if did else None
+    if b is None or not b["params"]:
+        return False
+    from ..facts import peel
+    v = peel(b["value"])
+    if v.get("k") == "Block" and not v["block"]["stmts"] and "expr" in v["block"]:
+        v = peel(v["block"]["expr"])
+    if v.get("k") not in ("Call", "MethodCall") or callee_def(v) != "std::io::Write::flush":
+        return False
+    r = peel(v["recv"] if v.get("k") == "MethodCall" else v["args"][0])
+    while r.get("k") in ("AddrOf", "Unary"):
+        r = peel(r["e"])
+    return r.get("k") == "Path" and (r.get("res") or {}).get("k") == "Local" and r["res"].get("name") == b["params"][0].get("name")
+
+
 def unflushed_sinks(fx, hb, local):
     """(local name, where, why) for every buffered sink owned by a local of this body that is written to but not
     flushed — with the flush result consumed — on the straight path to the function's successful end."""
@@ -225,7 +244,8 @@ def unflushed_sinks(fx, hb, local):
                 if call is None:
                     continue
                 cd = callee_def(call) or ""
-                if cd in FLUSHERS and call.get("k") == "MethodCall" and peel(call["recv"]) is n or (cd in FLUSHERS and n in [peel(a) for a in call.get("args", [])]):
+                flusher = cd in FLUSHERS or _wraps_flush(fx, call)
+                if flusher and call.get("k") == "MethodCall" and peel(call["recv"]) is n or (flusher and n in [peel(a) for a in call.get("args", [])]):
                     cps = [pp for x, pp in walk_body(hb) if x is call][0]
                     nested = [p.get("k") for role, p in cps if p.get("k") in ("If", "Loop", "Closure") or (p.get("k") == "Match" and p.get("src") == "Normal")]
                     res_uses = final_uses(call, cps, hb["value"])
@@ -303,7 +323,8 @@ def _ordinal_kind(hb, node):
 
 
 def _is_plain_forward(hb, trait_method):
-    """body is `self.<field>.<same method>(<params unchanged>)` (possibly via a block tail)."""
+    """body is `<inner>.<same method>(<params unchanged>)` — possibly via a block tail, and possibly one such call per arm
+    of a `match` over self (an enum of sinks): every arm must forward."""
     from ..facts import peel
     v = peel(hb["value"])
     if v.get("k") == "Block":
@@ -311,19 +332,59 @@ def _is_plain_forward(hb, trait_method):
         if b["stmts"] or "expr" not in b:
             return False, "body is not a single forwarding call"
         v = peel(b["expr"])
-    if v.get("k") != "MethodCall" or callee_def(v) != trait_method:
-        return False, "body does not forward to %s" % trait_method
-    r = v["recv"]
-    if r.get("k") != "Field":
-        return False, "receiver of the forwarded call is not a field of self"
     params = [p.get("name") for p in hb["params"][1:]]
-    args = []
-    for a in v["args"]:
-        a = peel(a)
-        if a.get("k") == "Path" and a["res"].get("k") == "Local":
-            args.append(a["res"]["name"])
+    self_name = hb["params"][0].get("name") if hb["params"] else None
+
+    def forwards(call, bound):
+        call = peel(call)
+        if call.get("k") == "Block" and not call["block"]["stmts"] and "expr" in call["block"]:
+            call = peel(call["block"]["expr"])
+        if call.get("k") == "MethodCall":
+            if callee_def(call) != trait_method:
+                return False, "body does not forward to %s" % trait_method
+            r, rest = call["recv"], call["args"]
+        elif call.get("k") == "Call" and callee_def(call) == trait_method and call.get("args"):
+            r, rest = call["args"][0], call["args"][1:]       # Write::flush(self) / Write::write(inner, buf)
         else:
-            args.append(None)
-    if args != params:
-        return False, "arguments are not passed through unchanged"
+            return False, "body does not forward to %s" % trait_method
+        r = peel(r)
+        while r.get("k") in ("AddrOf", "Unary"):
+            r = peel(r["e"])
+        is_field = r.get("k") == "Field"
+        is_bound = r.get("k") == "Path" and (r.get("res") or {}).get("k") == "Local" and (r["res"]["lid"] in bound)
+        if not (is_field or is_bound):
+            return False, "receiver of the forwarded call is neither a field of self nor a binding of the matched sink"
+        args = []
+        for a in rest:
+            a = peel(a)
+            if a.get("k") == "Path" and a["res"].get("k") == "Local":
+                args.append(a["res"]["name"])
+            else:
+                args.append(None)
+        if args != params:
+            return False, "arguments are not passed through unchanged"
+        return True, ""
+
+    if v.get("k") == "Match" and v.get("src") == "Normal":
+        sc = peel(v["scrut"])
+        while sc.get("k") in ("AddrOf", "Unary"):
+            sc = peel(sc["e"])
+        on_self = (sc.get("k") == "Field") or (sc.get("k") == "Path" and (sc.get("res") or {}).get("name") == self_name)
+        if not on_self:
+            return False, "body matches on something other than self"
+        for arm in v["arms"]:
+            if "guard" in arm:
+                return False, "guarded arm in a forwarding match"
+            bound = set()
+            from .c08_account import walk_pat
+            for q, _ in walk_pat(arm["pat"]):
+                if q.get("k") == "Binding":
+                    bound.add(q["lid"])
+            ok, why = forwards(arm["body"], bound)
+            if not ok:
+                return False, why
+        return True, "every arm of the match over self forwards to the inner sink (count/result returned unchanged)"
+    ok, why = forwards(v, set())
+    if not ok:
+        return False, why
     return True, "plain forward to the inner sink (count/result returned unchanged)"
